@@ -32,21 +32,22 @@ type HarnessResult struct {
 	Races        map[string]string `json:"races_observed,omitempty"`
 	Bounds       map[string]int    `json:"bounds"`
 	RefineRounds int               `json:"refine_rounds"`
+	Reached      []string          `json:"reached,omitempty"`
 }
 
 type ViolationOut struct {
-	Kind  string            `json:"kind"`
-	Label string            `json:"label"`
-	Site  string            `json:"site,omitempty"`
-	Model map[string]string `json:"model"`
-	Tags  map[string]string `json:"tags,omitempty"`
-	Obs   map[string]string `json:"observations,omitempty"`
-	Trace []string          `json:"schedule,omitempty"`
-	Values map[string]interface{} `json:"values"`
+	Kind     string                 `json:"kind"`
+	Label    string                 `json:"label"`
+	Site     string                 `json:"site,omitempty"`
+	Model    map[string]string      `json:"model"`
+	Tags     map[string]string      `json:"tags,omitempty"`
+	Obs      map[string]string      `json:"observations,omitempty"`
+	Trace    []string               `json:"schedule,omitempty"`
+	Values   map[string]interface{} `json:"values"`
 	ObsTyped map[string]interface{} `json:"observed,omitempty"`
-	Blocked []string `json:"blocked,omitempty"`
-	Sig string `json:"signature"`
-	Gates []string `json:"gates,omitempty"`
+	Blocked  []string               `json:"blocked,omitempty"`
+	Sig      string                 `json:"signature"`
+	Gates    []string               `json:"gates,omitempty"`
 }
 
 func outViolation(v *Violation) *ViolationOut {
@@ -100,6 +101,10 @@ func (e *Engine) RunHarness(fn *ssa.Function) (res *HarnessResult) {
 		res.Inputs = append([]string(nil), e.symOrder...)
 		res.Terms = term.NumTerms()
 		res.Races = e.Races
+		for l := range e.Reached {
+			res.Reached = append(res.Reached, l)
+		}
+		sort.Strings(res.Reached)
 		switch {
 		case len(res.Violations) > 0:
 			res.Verdict = "violated"
